@@ -25,7 +25,7 @@ func verifHarness_f08() {
 	verifAllow("P1", 1)
 	em := cff.EmitterStack(&verifRec{0}, &verifRec{1})
 	err := Flow08(ctx, em, a, fb, &d)
-	for r := 0; r < verifRecs; r++ {
+	for r := 0; r < 2; r++ {
 		dc := verifDirCnt[r]
 		// exactly one of Success / Error, then exactly one Done, which is last
 		verifAssert(verifExactlyOne(dc[0], dc[1]), 1)
@@ -91,4 +91,33 @@ func verifHarness_p05() {
 	}
 	verifCover(err == nil, 1)
 	verifCover(err != nil && verifTaskCnt[0][1][evPanic] == 1, 2)
+}
+
+// C18: a nested stack shared by two outer stacks (each recorder must see
+// exactly what it would see alone)
+func verifHarness_f08n() {
+	ctx := verifNdCtx(false)
+	a := A(verifNdInt(1))
+	fb := B(verifNdInt(3))
+	var d1, d2 D
+	verifAllow("T1", 3)
+	verifAllow("T8", 1)
+	verifAllow("P1", 1)
+	base := cff.EmitterStack(&verifRec{0}, &verifRec{1}, &verifRec{2})
+	emA := cff.EmitterStack(base, &verifRec{3})
+	emB := cff.EmitterStack(base, &verifRec{4})
+	errA := Flow08(ctx, emA, a, fb, &d1)
+	// recorder 3 saw the whole first execution, recorder 4 nothing yet
+	verifAssert(errA == nil, 1)
+	verifAssert(verifDirCnt[3][0] == 1 && verifDirCnt[3][2] == 1, 2)
+	verifAssert(verifDirCnt[4][0] == 0 && verifDirCnt[4][2] == 0, 3)
+	errB := Flow08(ctx, emB, a, fb, &d2)
+	verifAssert(errB == nil, 4)
+	verifAssert(verifDirCnt[3][0] == 1 && verifDirCnt[3][2] == 1, 5) // unchanged by the second execution
+	verifAssert(verifDirCnt[4][0] == 1 && verifDirCnt[4][2] == 1, 6)
+	for r := 0; r < 3; r++ {
+		verifAssert(verifDirCnt[r][0] == 2 && verifDirCnt[r][2] == 2, 7) // the shared base saw both
+	}
+	verifAssert(verifTaskCnt[3][0][evDone] == 1 && verifTaskCnt[4][0][evDone] == 1, 8)
+	verifCover(d1 == d2, 1)
 }
